@@ -441,6 +441,8 @@ def resolve_callee(call, fn):
                     return "fns", [(r, 1 if r.kind == "classmethod" else 0)]
         if f.attr in ALLOW_ATTR_CALLEES:
             return "allow", None
+        if dotted_name(f) in ("copy.copy", "copy.deepcopy"):
+            return "allow", None
         return "unknown", ast.unparse(f)[:80]
     return "unknown", ast.unparse(f)[:80]
 
@@ -476,6 +478,10 @@ def is_root(node, root):
     if root[0] == "selfattr":
         return isinstance(node, ast.Attribute) and node.attr == root[1] and isinstance(node.value, ast.Name) \
             and node.value.id == "self"
+    if root[0] == "anyattr":   # <any receiver>.<one of the names>: class metadata reached through cls / self / c in __mro__
+        return isinstance(node, ast.Attribute) and node.attr in root[1]
+    if root[0] == "call":      # the value returned by a call of <...>.<name>() / <name>()
+        return isinstance(node, ast.Call) and dec_name(node.func) == root[1]
     if root[0] == "clsattr":
         if not (isinstance(node, ast.Attribute) and node.attr == root[1]):
             return False
@@ -506,7 +512,15 @@ def yields(expr, pred):
 def analyse(fn, root, mutable_kind=True):
     """effect of function fn on the object denoted by root (and its local aliases)"""
     eff = Effect()
-    if (root[0] == "name" and not fn.has_name(root[1])) or (root[0] != "name" and not fn.has_attr(root[1])):
+    if root[0] == "name":
+        present = fn.has_name(root[1])
+    elif root[0] == "anyattr":
+        present = any(fn.has_attr(a) for a in root[1])
+    elif root[0] == "call":
+        present = fn.has_attr(root[1]) or fn.has_name(root[1])
+    else:
+        present = fn.has_attr(root[1])
+    if not present:
         return eff
     fn.set_parents()
     aliases = set()
@@ -655,7 +669,9 @@ def analyse(fn, root, mutable_kind=True):
             elif isinstance(n.ctx, ast.Store) and isinstance(n._parent, ast.AugAssign) and n._parent.target is n:
                 if mutable_kind:
                     eff.mutated.append("augmented assignment at " + where(n))
-        elif root[0] != "name" and is_root(n, root):
+        elif root[0] == "call" and is_root(n, root):
+            classify(n)
+        elif root[0] not in ("name", "call") and is_root(n, root):
             if isinstance(n.ctx, ast.Load):
                 classify(n)
             elif isinstance(n.ctx, (ast.Store, ast.Del)):
@@ -888,10 +904,164 @@ def collect_fields():
             for g in fn_and_nested(c):
                 for n in ast.walk(g.node):
                     if isinstance(n, ast.Call) and isinstance(n.func, ast.Name) and n.func.id in ("setattr", "delattr", "vars", "exec", "eval"):
+                        if n.func.id == "vars":
+                            g.set_parents()
+                            arg = ast.unparse(n.args[0]) if n.args else ""
+                            par = getattr(n, "_parent", None)
+                            if arg == "self":        # the instance dict: per-instance state by construction
+                                continue
+                            if isinstance(par, ast.Attribute) and par.attr == "get":   # a read of a class/instance dict
+                                continue
                         untrans(m.name, g.qual, "dynamic state access: %s()" % n.func.id)
                     if isinstance(n, ast.Attribute) and n.attr == "__dict__":
                         untrans(m.name, g.qual, "dynamic state access: __dict__")
     return out
+
+
+# ------------------------------------------------------------------------- 2b. class metadata of the bindings
+BINDINGS = "neuroml.nml.nml"
+RUNTIME = "neuroml.nml.generatedssupersuper"
+FRESH_VALUE_CALLS = {"copy", "deepcopy", "list", "set", "dict", "tuple", "sorted", "frozenset"}
+
+
+def all_functions():
+    for m in W.mods.values():
+        for g in m.all_fns:
+            yield m, g
+
+
+def fresh_returning_call(call):
+    """a call of an analysed function/method (resolved by name) all of whose return values are freshly built objects"""
+    name = dec_name(call.func)
+    if name in FRESH_VALUE_CALLS:
+        return True
+    cands = [g for m, g in all_functions() if g.node.name == name and m.name in (RUNTIME, "neuroml.utils", "neuroml.loaders")]
+    if not cands:
+        return False
+    for g in cands:
+        rets = [n for n in g.scope_nodes() if isinstance(n, ast.Return)]
+        if not rets:
+            return False
+        for r in rets:
+            v = r.value
+            if not (isinstance(v, (ast.List, ast.Dict, ast.Set, ast.ListComp, ast.DictComp, ast.SetComp, ast.Tuple))
+                    or (isinstance(v, ast.Call) and dec_name(v.func) in FRESH_VALUE_CALLS)):
+                return False
+    return True
+
+
+def collect_classmeta():
+    """class-level lists/dicts of the generated classes (member_data_items_, validate_*_patterns_): one row per attribute
+    name (pattern), with every in-place mutation / rebinding by run-time code, reached through ANY receiver or an alias;
+    and the keyed memos the bindings runtime keeps on the class object (__all_members_)."""
+    rows = []
+    bm = W.mods.get(BINDINGS)
+    groups = {}
+    if bm is not None:
+        for c in bm.classes.values():
+            for attr, val in c.fields:
+                if value_kind(val) == "mutable" and not (isinstance(val, ast.Call) and dec_name(val.func) == "staticmethod"):
+                    g = "validate_*_patterns_" if attr.startswith("validate_") and attr.endswith("_patterns_") else attr
+                    groups.setdefault(g, {"names": set(), "classes": 0})
+                    groups[g]["names"].add(attr)
+                    groups[g]["classes"] += 1
+    for g, info in sorted(groups.items()):
+        why = []
+        root = ("anyattr", frozenset(info["names"]))
+        for m, fn in all_functions():
+            e = analyse(fn, root)
+            for r in e.mutated:
+                why.append("%s: %s" % (m.name, r))
+            for r in e.escapes:
+                why.append("%s: %s" % (m.name, r))
+            for r in closure_reasons(e):
+                why.append("%s: %s" % (m.name, r))
+            if e.rebinds:
+                why.append("%s: rebound at run time in %s" % (m.name, fn.qual))
+            for a in e.stored_attrs:
+                why.append("%s: stored as self.%s in %s" % (m.name, a, fn.qual))
+        rows.append({"module": BINDINGS, "attr": g, "kind": "metadata", "classes": info["classes"],
+                     "mutated": bool(why), "aliases": False, "why": "; ".join(why[:3])[:400]})
+    # --- memos: class attributes created at run time ( cls.X = {} ; cls.X[k] = v )
+    memos = {}
+    for m, fn in all_functions():
+        if m.name == BINDINGS:
+            continue
+        c = enclosing_class(fn)
+        if c is None:
+            continue
+        fields = {a for a, _ in c.fields}
+        fn.set_parents()
+        for n in fn.all_nodes():
+            if isinstance(n, ast.Attribute) and isinstance(n.value, ast.Name) and (n.value.id == "cls" or n.value.id == c.name) \
+                    and n.attr not in fields and n.attr not in c.methods and not (n.attr.startswith("__") and n.attr.endswith("__")):
+                par = n._parent
+                stored = isinstance(n.ctx, ast.Store) or (isinstance(par, ast.Subscript) and par.value is n
+                                                           and isinstance(par.ctx, ast.Store))
+                if stored:
+                    memos.setdefault((m.name, c.name, n.attr), [])
+    for (mn, cn, attr) in sorted(memos):
+        mutated, aliases = [], []
+        getters = set()
+        for m, fn in all_functions():
+            if not fn.has_attr(attr):
+                continue
+            fn.set_parents()
+            for n in fn.all_nodes():
+                if not (isinstance(n, ast.Attribute) and n.attr == attr):
+                    continue
+                par = n._parent
+                if isinstance(n.ctx, ast.Store):
+                    v = par.value if isinstance(par, ast.Assign) else None
+                    if isinstance(v, ast.Dict) and not v.keys:
+                        pass
+                    elif isinstance(v, ast.Call) and fresh_returning_call(v):
+                        pass     # a value computed once by a function that builds a new object
+                    else:
+                        aliases.append("%s:%d binds the memo to %s (not provably a fresh object)"
+                                       % (fn.qual, n.lineno, ast.unparse(v)[:50] if v is not None else "?"))
+                elif isinstance(par, ast.Return):
+                    getters.add(fn.node.name)
+                elif isinstance(par, ast.Subscript) and par.value is n:
+                    gp = par._parent
+                    if isinstance(par.ctx, ast.Store):
+                        if isinstance(gp, ast.AugAssign):
+                            continue     # cls.X[k] += v : extends the entry (fresh by the store rule), reads v
+                        v = gp.value if isinstance(gp, ast.Assign) else None
+                        fresh = isinstance(v, (ast.List, ast.Dict, ast.Set, ast.ListComp, ast.DictComp, ast.SetComp, ast.Tuple)) or \
+                            (isinstance(v, ast.Call) and dec_name(v.func) in FRESH_VALUE_CALLS)
+                        if not fresh:
+                            aliases.append("%s:%d stores %s (not a fresh copy)" % (fn.qual, par.lineno, ast.unparse(v)[:50] if v is not None else "?"))
+                    elif isinstance(par.ctx, ast.Del):
+                        mutated.append("%s deletes a memo entry" % fn.qual)
+                    else:
+                        # a load of cls.X[k]: returned (the function is a getter of memo values), or used as a read
+                        if isinstance(gp, ast.Return):
+                            getters.add(fn.node.name)
+                        elif isinstance(gp, (ast.Call,)) and dec_name(gp.func) in FRESH_VALUE_CALLS | {"len"}:
+                            pass
+                        elif isinstance(gp, (ast.For, ast.comprehension, ast.Compare)):
+                            pass
+                        else:
+                            e = Effect()
+                            mutated.append("%s uses a memo entry in an unclassified way (%s)" % (fn.qual, type(gp).__name__))
+                else:
+                    mutated.append("%s uses the memo table other than by key (%s)" % (fn.qual, type(par).__name__))
+        # the values handed out by the getters must not be mutated by their callers
+        for gname in sorted(getters):
+            for m, fn in all_functions():
+                if fn.node.name == gname and enclosing_class(fn) is not None and enclosing_class(fn).name == cn:
+                    continue
+                e = analyse(fn, ("call", gname))
+                for r in e.mutated + closure_reasons(e):
+                    mutated.append("%s: value of %s() %s" % (m.name, gname, r))
+                for r in e.escapes:
+                    if r.startswith("returned") or r.startswith("attribute ."):
+                        continue   # handed on / attribute of the list object read: still only read here
+                    mutated.append("%s: value of %s() %s" % (m.name, gname, r))
+        rows.append({"module": mn, "attr": "%s.%s" % (cn, attr), "kind": "memo", "classes": 1, "getters": sorted(getters),
+                     "mutated": bool(mutated), "aliases": bool(aliases), "why": "; ".join((aliases + mutated)[:3])[:400]})
+    return rows
 
 
 # ------------------------------------------------------------------------------------ 3. globals
@@ -1039,6 +1209,23 @@ def collect_entry_defaults(defaults):
             if res["modes"][name] == "unknown":
                 untrans("neuroml.loaders", name, "default of an unexpected shape: " + ast.unparse(d)[:40])
 
+    # NeuroMLHdf5Loader.load(src, optimized, already_included=None): None is handed down to parse(), which makes the list
+    hl = lo.classes.get("NeuroMLHdf5Loader")
+    ld = hl.methods.get("load") if hl else None
+    if ld is None:
+        untrans("neuroml.loaders", "NeuroMLHdf5Loader.load", "not found")
+        res["modes"]["NeuroMLHdf5Loader.load"] = "unknown"
+    elif "already_included" not in ld.params:
+        res["modes"]["NeuroMLHdf5Loader.load"] = "none"
+    else:
+        dflt = ld.defaults.get("already_included")
+        if isinstance(dflt, ast.Constant) and dflt.value is None:
+            res["modes"]["NeuroMLHdf5Loader.load"] = "none"
+        elif isinstance(dflt, ast.List) and not dflt.elts:
+            res["modes"]["NeuroMLHdf5Loader.load"] = "shared" if ("NeuroMLHdf5Loader.load", "already_included") in flagged else "none"
+        else:
+            res["modes"]["NeuroMLHdf5Loader.load"] = "unknown"
+            untrans("neuroml.loaders", "NeuroMLHdf5Loader.load", "already_included default of an unexpected shape")
     # call-site shapes the model mirrors
     def ai_arg(call, callee):
         for k in call.keywords:
@@ -1201,7 +1388,8 @@ def builder_shape():
 # --------------------------------------------------------------------------------------- main
 def main():
     files = [("neuroml.loaders", "neuroml/loaders.py"), ("neuroml.utils", "neuroml/utils.py"),
-             ("neuroml.nml.nml", "neuroml/nml/nml.py")]
+             ("neuroml.nml.nml", "neuroml/nml/nml.py"),
+             ("neuroml.nml.generatedssupersuper", "neuroml/nml/generatedssupersuper.py")]
     for p in sorted(glob.glob(os.path.join(REPO, "neuroml", "hdf5", "*.py"))):
         b = os.path.basename(p)[:-3]
         files.append(("neuroml.hdf5" if b == "__init__" else "neuroml.hdf5." + b, "neuroml/hdf5/" + os.path.basename(p)))
@@ -1217,6 +1405,7 @@ def main():
     defaults = collect_defaults()
     fields = collect_fields()
     globs, ext = collect_globals()
+    classmeta = collect_classmeta()
     entry = collect_entry_defaults(defaults) if "neuroml.loaders" in W.mods else {}
     bshape = builder_shape()
     seen = set()
@@ -1226,7 +1415,7 @@ def main():
         if k not in seen:
             seen.add(k)
             uniq.append(u)
-    doc = {"defaults": defaults, "fields": fields, "globals": globs, "external_state_calls": ext,
+    doc = {"defaults": defaults, "fields": fields, "globals": globs, "classmeta": classmeta, "external_state_calls": ext,
            "entry_defaults": entry, "builder_shape": bshape, "untranslatable": uniq,
            "modules": sorted(W.mods), "functions_scanned": sum(len(m.all_fns) for m in W.mods.values())}
     print(json.dumps(doc))
